@@ -138,14 +138,16 @@ theorem varIntSize_le (n : Nat) : varIntSize n ≤ MAX_VARINT_PAYLOAD := by
 
 variable {Q : Type} {ops : QueueOps Q}
 
-theorem spec_weight_le {e : Env} {pool : List Tx} {law : QueueLaw ops} {s : St Q} (h : Inv e pool law s) :
+theorem spec_weight_le {e : Env} {pool : List Tx} {law : QueueLaw ops} {s : St Q} (h : Inv e pool law s)
+    (ho : BLOCK_HEADER_OVERHEAD ≤ e.headerOverhead) :
     Spec.blockWeight e pool (templateOf e s) ≤ s.blockWeight := by
   rw [h.weight]
   unfold Spec.blockWeight templateOf
   simp only
   have := varIntSize_le (s.sel.length + 1)
   unfold MAX_VARINT_PAYLOAD at this
-  unfold BLOCK_HEADER_OVERHEAD WITNESS_SCALE
+  unfold BLOCK_HEADER_OVERHEAD at ho
+  unfold WITNESS_SCALE
   omega
 
 theorem spec_sigs_eq {e : Env} {pool : List Tx} {law : QueueLaw ops} {s : St Q} (h : Inv e pool law s) :
@@ -160,7 +162,7 @@ theorem blockValid_of_inv {e : Env} {pool : List Tx} {law : QueueLaw ops} {s : S
   rcases h.conn with ⟨rf, hfold, _, hnot⟩
   have hconn : connect e pool s.sel = some rf := by
     unfold connect; rw [hfold]; rfl
-  have hw := spec_weight_le h
+  have hw := spec_weight_le h he.overhead
   have hs := spec_sigs_eq h
   unfold Spec.blockValid
   have hsel : (templateOf e s).sel = s.sel := rfl
